@@ -34,8 +34,8 @@ def streams(seed, tier):
     rng = random.Random(seed)
     names = full_names()
     cs = combos(names)
-    n_draws = {"quick": 100, "thorough": 150, "search": 60}[tier]
-    per_size = {"quick": 4, "thorough": 18, "search": 9}[tier]
+    n_draws = {"quick": 100, "thorough": 300, "search": 60}[tier]
+    per_size = {"quick": 4, "thorough": 36, "search": 9}[tier]
     out = []
     # decompose
     cases = [case(r % 2, 1, {"quick": 60, "thorough": 500, "search": 300}[tier], [r], tape(rng)) for r in range(0, 81)]
